@@ -391,6 +391,14 @@ func checkSubstitutedPrefix(c *Ctx, p *Prog, fn *ssa.Function, rule string) {
 			lphi, _ = sl.High.(*ssa.Phi)
 		}
 	}
+	// the direct way: the decoder is not told that the input ends with the prefix, so it answers
+	// ErrShortSrc (or produces nothing) for an unfinished character and the loop moves on
+	if cc := callCommon(loops[0].call); cc != nil && len(cc.Args) == 3 {
+		if atEOF, ok := constBool(cc.Args[2]); ok && !atEOF {
+			c.OK(rule, fn.Name()+":substituted-prefix", p.pos(loops[0].call.Pos()), "prefixes are offered to the decoder with atEOF=false: an unfinished character is reported as short input, not substituted")
+			return
+		}
+	}
 	const runeError = 0xFFFD
 	var tests []*ssa.BinOp
 	eachInstr(fn, func(in ssa.Instruction) {
